@@ -74,3 +74,174 @@ def lemmas():
     A, c, pi = z3.Reals("sumA c pi5")
     out.append(("lemma:shell-volume-from-area-sum", [A == 4 * pi], A / 3 * c == 4 * pi / 3 * c, ("C05",)))
     return out
+
+
+# ---------------------------------------------------------------------------------------------
+# _get_N_N_position_array: adjacency / borders / distances of the shell grid, for all n_o >= 1, T >= 1
+# ---------------------------------------------------------------------------------------------
+from pyvc.interp import LoopSpec
+from pyvc.lib_sp import Sparse
+from pyvc.core import patterns_for
+
+
+def direction_grid_stub(V, n_o):
+    """ASSUMED callee contract = post-condition of C03: symmetric 0/1 adjacency with empty diagonal; arcs and angles are
+    positive exactly on that pattern; areas positive."""
+    A = z3.Function("adjO", z3.IntSort(), z3.IntSort(), z3.IntSort())
+    ARC = z3.Function("arcO", z3.IntSort(), z3.IntSort(), z3.RealSort())
+    ANG = z3.Function("angO", z3.IntSort(), z3.IntSort(), z3.RealSort())
+    area = V.vec("area", n_o, "real", facts=lambda v, k: [v > 0])
+
+    def facts(c, a, b):
+        c.assume(z3.And(z3.Or(A(a, b) == 0, A(a, b) == 1), A(a, b) == A(b, a), A(a, a) == 0,
+                        ARC(a, b) == ARC(b, a), ANG(a, b) == ANG(b, a),
+                        z3.If(A(a, b) == 1, z3.And(ARC(a, b) > 0, ANG(a, b) > 0), z3.And(ARC(a, b) == 0, ANG(a, b) == 0))))
+
+    def mk(fn, integer=False):
+        def dense(c, i, j):
+            facts(c, zint(i), zint(j))
+            t = fn(zint(i), zint(j))
+            return Num(z3.ToReal(t) if integer else t, False)
+        return lambda interp, a, k: Sparse("coo", n_o, n_o, dense=dense, canonical=True)
+    sv = Stub("RotobjVoronoi[C03 contract]", {"get_voronoi_volumes": lambda i, a, k: area})
+    o_rot = Stub("SphereGrid3Dim[C03/C07 contract]", {
+        "get_N": lambda i, a, k: Num(n_o, True), "__len__": lambda i, a, k: Num(n_o, True),
+        "get_spherical_voronoi": lambda i, a, k: sv,
+        "get_voronoi_adjacency": mk(A, integer=True), "get_cell_borders": mk(ARC), "get_center_distances": mk(ANG),
+        "get_grid_as_array": lambda i, a, k: Mat(n_o, 3, lambda x, y: Num(z3.Function("Odir", z3.IntSort(), z3.IntSort(), z3.RealSort())(zint(x), zint(y)), False))})
+    return o_rot, A, ARC, ANG, area
+
+
+class PositionMatrices(Contract):
+    target = f"{REL}::PositionGrid._get_N_N_position_array"
+    variants = ("adjacency", "border_len", "center_distances")
+    property_ids = ("C05",)
+    expected = ("post:entry-formula[same shell]", "post:entry-formula[cell radially above]", "post:entry-formula[no other neighbours]")
+
+    def setup(self, V, variant):
+        n_o = V.int("n_o", lo=1)
+        T = V.int("T", lo=1)
+        radii = V.vec("r", T, "real")
+        o_rot, A, ARC, ANG, area = direction_grid_stub(V, n_o)
+        loader = V.interp.loader
+        t_grid = Obj(loader.find_class(TREL, "TranslationParser"), {"trans_grid": radii})
+        pg = Obj(loader.find_class(REL, "PositionGrid"), {"o_rotations": o_rot, "t_grid": t_grid, "position_grid_cartesian": lift(False)})
+        V.env.update(n_o=n_o, T=T, radii=radii, A=A, ARC=ARC, ANG=ANG, area=area)
+        V.ctx.c05 = V.env
+        return [pg], {"sel_property": Str(py=variant)}
+
+    # loop 0 (border branch): my_diags = [area_o * R_k^2 for k < i for o]
+    def _inv_diags(self, interp, frame, i):
+        ctx = interp.ctx
+        env = ctx.c05
+        n_o, area = env["n_o"], env["area"].zfun
+        md = frame.lookup("my_diags")
+        br = frame.lookup("between_radii")
+        q = z3.Int(ctx.fresh("q"))
+        if conc(md.length) == 0:
+            return [("length", zint(md.length) == i * n_o), ("contents", z3.BoolVal(True))]
+        ctx.binder_stack.append([])
+        try:
+            lhs = as_real(to_num(vget(ctx, md, q)))
+            Rk = as_real(to_num(vget(ctx, br, q / n_o)))
+        finally:
+            ctx.binder_stack.pop()
+        return [("length", zint(md.length) == i * n_o),
+                ("contents", z3.ForAll([q], z3.Implies(z3.And(q >= 0, q < i * n_o), lhs == area(q % n_o) * (Rk * Rk)), patterns=patterns_for(lhs, [q])))]
+
+    # loop 1: entries of the same-radius block matrix in shell b < ind are scaled by multiply[b], the others untouched
+    def _inv_scale(self, interp, frame, ind):
+        ctx = interp.ctx
+        env = ctx.c05
+        n_o = env["n_o"]
+        M = frame.lookup("same_radius_neighbours")
+        mult = frame.lookup("multiply")
+        D0 = M.bmat_dense0
+        pat = M.pattern
+        t = z3.Int(ctx.fresh("t"))
+        ctx.binder_stack.append([])
+        try:
+            rt, ct = to_num(vget(ctx, pat.row, t)).z, to_num(vget(ctx, pat.col, t)).z
+            lhs = as_real(to_num(vget(ctx, M.data, t)))
+            d0 = as_real(D0(ctx, rt, ct))
+            mb = as_real(to_num(vget(ctx, mult, rt / n_o)))
+        finally:
+            ctx.binder_stack.pop()
+        fac = z3.If(z3.And(rt / n_o < ind, ct / n_o == rt / n_o), mb, z3.RealVal(1))
+        x = z3.Int(ctx.fresh("x"))
+        return [("scaled-blocks", z3.ForAll([t], z3.Implies(z3.And(t >= 0, t < zint(pat.nnz)), lhs == d0 * fac), patterns=patterns_for(lhs, [t]))),
+                ("block-bounds", z3.ForAll([x], z3.Implies(x >= 0, z3.And(z3.And(ind * n_o <= x, x < (ind + 1) * n_o) == (x / n_o == ind))),
+                                           patterns=[x / n_o]))]
+
+    def _havoc_scale(self, interp, frame, names):
+        M = frame.lookup("same_radius_neighbours")
+        f = interp.ctx.func("bmat_data", z3.IntSort(), z3.RealSort())
+        M.data.items = None
+        M.data.buf.write(lambda k: Num(f(zint(k)), False))
+        for nm in ("smallest_row", "largest_row", "smallest_column", "largest_column", "mask"):
+            frame.vars.pop(nm, None)
+        # hide the per-shell factor behind an uninterpreted function (revealed pointwise where it is accessed): the loop
+        # reasoning only needs "the same factor for the same shell", not its formula
+        from pyvc.ops import snapshot
+        mult = frame.lookup("multiply")
+        if isinstance(mult, Vec) and not getattr(mult, "opaque_of", None):
+            src = snapshot(mult)
+            mu = interp.ctx.func("shell_factor", z3.IntSort(), z3.RealSort())
+            hidden = Vec(mult.length, lambda kk: Num(mu(zint(kk)), False), kind="ndarray", elem="real")
+            hidden.buf.facts = lambda kk: [mu(zint(kk)) == as_real(to_num(src(zint(kk))))]
+            hidden.opaque_of = mult
+            frame.vars["multiply"] = hidden
+            interp.ctx.c05["shell_factor"] = hidden
+
+    @property
+    def loops(self):
+        return {0: LoopSpec(self._inv_diags, elem={"my_diags": "real"}), 1: LoopSpec(self._inv_scale, havoc=self._havoc_scale)}
+
+    def post(self, V, variant, env, outcome):
+        ctx = V.ctx
+        if outcome[0] == "raise":
+            V.oblige(f"post:only-the-radial-grid's-rejection-escapes[{outcome[1]}]", z3.BoolVal(outcome[1] == "AssertionError"))
+            return
+        res = outcome[1]
+        n_o, T, r, A, ARC, ANG, area = env["n_o"], env["T"], env["radii"].zfun, env["A"], env["ARC"], env["ANG"], env["area"].zfun
+        n = n_o * T
+        V.oblige("post:shape", z3.And(zint(res.nrows) == n, zint(res.ncols) == n))
+        i, j = z3.Int("i5p"), z3.Int("j5p")
+        k, o, k2, o2 = i / n_o, i % n_o, j / n_o, j % n_o
+        R = lambda kk: z3.If(kk < 0, z3.RealVal(0), R_spec(r, T, kk))
+        kmin = z3.If(k < k2, k, k2)
+        ray = z3.And(o == o2, z3.Or(k2 == k + 1, k == k2 + 1))
+        rad = z3.And(k == k2, A(o, o2) == 1)
+        if variant == "adjacency":
+            want = z3.If(z3.Or(ray, rad), z3.RealVal(1), z3.RealVal(0))
+        elif variant == "border_len":
+            want = z3.If(ray, area(o) * (R(kmin) * R(kmin)), z3.If(rad, ARC(o, o2) * (R(k) * R(k) / 2 - R(k - 1) * R(k - 1) / 2), z3.RealVal(0)))
+        else:
+            want = z3.If(ray, r(kmin + 1) - r(kmin), z3.If(rad, r(k) * ANG(o, o2), z3.RealVal(0)))
+        got = as_real(res.dense(ctx, i, j))
+        rng = z3.And(i >= 0, i < n, j >= 0, j < n)
+        sf = env.get("shell_factor")
+        if sf is not None:
+            vget(ctx, sf, k)          # reveal the per-shell factor of the shell of cell i
+        # arithmetic hints, proved as obligations of their own and then available to the case obligations
+        V.oblige("post:hint-shift-by-one-shell", z3.Implies(i >= 0, z3.And((i + n_o) / n_o == i / n_o + 1, (i + n_o) % n_o == i % n_o)))
+        V.oblige("post:hint-shift-by-one-shell'", z3.Implies(j >= 0, z3.And((j + n_o) / n_o == j / n_o + 1, (j + n_o) % n_o == j % n_o)))
+        V.oblige("post:hint-index-decomposition", z3.Implies(rng, z3.And(i == k * n_o + o, j == k2 * n_o + o2, k >= 0, k < T, k2 >= 0, k2 < T,
+                                                                        o >= 0, o < n_o, o2 >= 0, o2 < n_o)))
+        V.oblige("post:entry-formula[cell radially above]", z3.Implies(z3.And(rng, j == i + n_o), got == want))
+        V.oblige("post:entry-formula[cell radially below]", z3.Implies(z3.And(rng, i == j + n_o), got == want))
+        V.oblige("post:entry-formula[same shell]", z3.Implies(z3.And(rng, k == k2), got == want))
+        V.oblige("post:entry-formula[no other neighbours]", z3.Implies(z3.And(rng, k != k2, j != i + n_o, i != j + n_o), z3.And(got == 0, want == 0)))
+
+    def mustfail(self, V, variant, env, outcome):
+        ctx = V.ctx
+        res = outcome[1]
+        n_o, T = env["n_o"], env["T"]
+        i = z3.Int("i5pm")
+        if not ctx._sat(T >= 2):
+            return          # single shell: there are no radial neighbours, the twin would be vacuous
+        V.oblige("mustfail:no-radial-neighbours", z3.Implies(z3.And(i >= 0, i + n_o < n_o * T), as_real(res.dense(ctx, i, i + n_o)) == 0), kind="mustfail")
+
+
+PM = PositionMatrices()
+CONTRACTS.append(PM)
